@@ -40,7 +40,7 @@ func (c02) Decode(raw json.RawMessage) (any, error) {
 }
 
 // some segments are string prefixes of others: a wildcard P_* must match on whole segments only
-var tagVocab = []string{"app", "appx", "biz", "rpc", "db1", "db12", "x"}
+var tagVocab = []string{"app", "appx", "biz", "rpc", "db1", "db12", "x", "orderprocessing", "settlement9"}
 
 func genTagName(rt *rapid.T) string {
 	n := rapid.IntRange(1, 4).Draw(rt, "segs")
@@ -51,6 +51,9 @@ func genTagName(rt *rapid.T) string {
 	t := strings.Join(parts, "_")
 	if len(t) < 3 {
 		t = "app_" + t // a registered tag has at least three characters
+	}
+	for len(t) > 35 { // ... and at most 36 (35 here: a leading underscore may follow)
+		t = t[:strings.LastIndex(t, "_")]
 	}
 	if rapid.Bool().Draw(rt, "lead") {
 		t = "_" + t
@@ -167,6 +170,13 @@ func (c02) Run(x *Exec, scn any) {
 	tags := map[string]*log.Tag{}
 	for _, n := range allNames {
 		tags[n] = log.RegisterTag(n)
+	}
+	if s.Knobs.MapSeed%3 == 1 {
+		// registering a name again yields the same tag: the handle obtained first is the one the
+		// application keeps using
+		for _, n := range allNames {
+			log.RegisterTag(n)
+		}
 	}
 	// model: expected error?
 	wantErr := ""
